@@ -179,6 +179,7 @@ func genPlanC01(t *rapid.T) Plan {
 		}
 	}
 	p.Seg, p.Reset = genSeg(t)
+	p.PipeConnect = rapid.IntRange(0, 5).Draw(t, "pipeconnect") == 0
 	p.InprocErr = p.NInproc > 0 && rapid.IntRange(0, 3).Draw(t, "inprocerr") == 0
 	return p
 }
@@ -272,6 +273,7 @@ func genPlanC07(t *rapid.T) Plan {
 		}
 	}
 	p.Seg, p.Reset = genSeg(t)
+	p.PipeConnect = rapid.IntRange(0, 5).Draw(t, "pipeconnect") == 0
 	p.InprocErr = p.NInproc > 0 && rapid.IntRange(0, 3).Draw(t, "inprocerr") == 0
 	return p
 }
@@ -326,6 +328,7 @@ func genPlanC08(t *rapid.T) Plan {
 		}
 	}
 	p.Seg, p.Reset = genSeg(t)
+	p.PipeConnect = rapid.IntRange(0, 5).Draw(t, "pipeconnect") == 0
 	p.InprocErr = p.NInproc > 0 && rapid.IntRange(0, 3).Draw(t, "inprocerr") == 0
 	return p
 }
@@ -346,7 +349,7 @@ func genPlanC10(t *rapid.T) Plan {
 		if rapid.IntRange(0, 6).Draw(t, "flip") == 0 {
 			clean = !clean
 		}
-		op := Op{K: "connect", C: c, Clean: clean}
+		op := Op{K: "connect", C: c, Clean: clean, Pipe: rapid.SampledFrom([]int{0, 0, 0, 0, 0, 0, 1, 2}).Draw(t, "pipe")}
 		if rapid.IntRange(0, 3).Draw(t, "will") == 0 {
 			// a will, sometimes on a topic nobody can receive (what happens to the will must not decide what happens to the session)
 			op.Will = &Will{Topic: rapid.SampledFrom([]string{"w/x", "$SYS/w", "$w"}).Draw(t, "wt"), Size: 3, QoS: byte(rapid.IntRange(0, 1).Draw(t, "wq"))}
@@ -384,6 +387,7 @@ func genPlanC10(t *rapid.T) Plan {
 		}
 	}
 	p.Seg, p.Reset = genSeg(t)
+	p.PipeConnect = rapid.IntRange(0, 5).Draw(t, "pipeconnect") == 0
 	p.InprocErr = p.NInproc > 0 && rapid.IntRange(0, 3).Draw(t, "inprocerr") == 0
 	return p
 }
@@ -422,6 +426,7 @@ func genPlanC09(t *rapid.T) Plan {
 		switch k := rapid.IntRange(0, 19).Draw(t, "opkind"); {
 		case k < 8:
 			op := Op{K: "connect", C: c, Clean: cleanOf[c], EOFData: rapid.IntRange(0, 3).Draw(t, "eofdata") == 0}
+			op.Pipe = rapid.SampledFrom([]int{0, 0, 0, 0, 0, 0, 1, 2, 2}).Draw(t, "pipe")
 			if rapid.IntRange(0, 5).Draw(t, "flipclean") == 0 {
 				op.Clean = !op.Clean
 			}
@@ -447,6 +452,7 @@ func genPlanC09(t *rapid.T) Plan {
 		}
 	}
 	p.Seg, p.Reset = genSeg(t)
+	p.PipeConnect = rapid.IntRange(0, 5).Draw(t, "pipeconnect") == 0
 	p.InprocErr = p.NInproc > 0 && rapid.IntRange(0, 3).Draw(t, "inprocerr") == 0
 	return p
 }
